@@ -46,9 +46,9 @@ def reader_harness(L, sw, ch, sr, K, overlap, limit, record, srckind="bytes"):
                 kw["hop_dur"] = SymRat(B, sr)       # hop_dur == block_dur spelled out
         n_vis = n
         if limit:
-            e.assume(M >= 0)
-            kw["max_read"] = SymRat(M, sr)
-            syms["M"] = M
+            mr, M, Mq = byt.sym_max_read(e, sr)
+            kw["max_read"] = mr
+            syms["Mq"] = Mq
             n_vis = z3.If(M < n, M, n)
         if record:
             kw["record"] = True
@@ -186,15 +186,18 @@ def replay_fn(c):
         kw["hop_dur"] = H / sr
     n_vis = n
     if c["limit"]:
-        kw["max_read"] = c["M"] / sr
-        n_vis = min(n, c["M"])
+        mrc = byt.max_read_concrete(c["Mq"], sr)
+        if mrc is None:
+            return []
+        kw["max_read"] = mrc[0]
+        n_vis = min(n, mrc[1])
     if c["record"]:
         kw["record"] = True
     # B/sr etc. must survive the float round trip, otherwise the run is outside the idealisation
-    if int((B / sr) * sr) != B or (c["overlap"] and int((H / sr) * sr) != H) or (c["limit"] and round((c["M"] / sr) * sr) != c["M"]):
+    if int((B / sr) * sr) != B or (c["overlap"] and int((H / sr) * sr) != H):
         return []
     desc = "AudioReader(%d samples sw=%d ch=%d sr=%d, block=%d hop=%s max_read=%s record=%s, input=%s)" % (
-        n, sw, ch, sr, B, H if c["overlap"] else None, c.get("M") if c["limit"] else None, c["record"], c["srckind"])
+        n, sw, ch, sr, B, H if c["overlap"] else None, ("%s/4 samples" % c.get("Mq")) if c["limit"] else None, c["record"], c["srckind"])
     tmp = None
     try:
         if c["srckind"] == "bytes":
@@ -251,12 +254,12 @@ def run(rep):
     tier = rep.tier
     K = b["K"]
     rep.bounds = {"reads": "%d consecutive read() calls from a fresh reader (incl. calls past the end)" % K,
-                  "symbolic": "source length n, block size B, hop H < B, max_read M (samples): unbounded integers",
+                  "symbolic": "source length n, block size B, hop H < B, max_read = Mq/4 samples with Mq an unbounded integer (quarter-sample resolution, so rounding ties and fractions are covered)",
                   "enumerated": "overlap x limiter x recorder on/off; input kinds bytes, AudioSource object%s; formats %s" % (
                       ", raw file, wav file (lazy)" , byt.fmts(tier)[:3])}
     rep.explanation = ("Real AudioReader/_FixedSizeAudioReader/_OverlapAudioReader/_Limiter/_Recorder over an uninterpreted byte sequence; "
                        "z3 proves block k == V[k*H : min(k*H+B,|V|)] and the exact block-existence condition for all n, B, H, M.")
-    rep.assumptions = ["block_dur = B/rate, hop_dur = H/rate, max_read = M/rate as exact rationals (float rounding of d*rate outside the claim)",
+    rep.assumptions = ["block_dur = B/rate, hop_dur = H/rate, max_read = Mq/(4*rate) as exact rationals (float rounding of d*rate outside the claim)",
                        "H >= 1 (hop of at least one sample)", "I/O stubs for file inputs"]
     rep.outside = ["more than %d reads" % K, "pydub formats, microphone"]
     fm = byt.fmts(tier)[:2] if tier == "quick" else byt.fmts(tier)[:4]
